@@ -2,7 +2,8 @@
    live round through the real validateSnapshot; the model is run on the same
    sequence. *)
 From Coq Require Import List ZArith NArith Bool.
-Require Import Mixin.Base.Res Mixin.Model.RoundHash Mixin.Model.LiveRound.
+Require Import Mixin.Base.Res.
+Require Export Mixin.Model.RoundHash Mixin.Model.LiveRound.
 Import ListNotations.
 Open Scope N_scope.
 
